@@ -483,7 +483,7 @@ def synth_ff_text(rnd):
         if kind == 'bond+':
             if rnd.random() < 0.5:
                 out.append('resname "XA|XB"')
-            out += ['[ bonds ]', 'A +A 1 0.35 %d' % rnd.choice([1250, 1500])]
+            out += ['[ bonds ]', 'A +A 1 0.35 %d' % rnd.choice([1250, 1500]) + rnd.choice(['', '', '', ' {"version": 0}'])]
         elif kind == 'angle':
             out += ['[ angles ]', '-A A +A 2 %d 25' % rnd.choice([96, 127])]
         elif kind == 'dihedral':
@@ -548,7 +548,8 @@ def synth_ff_text(rnd):
             if rnd.random() < 0.5:
                 out += ['[ bonds ]', 'A B 1 0.29 %d' % rnd.choice([3000, 4000])]
         elif kind == 'override':
-            out += ['[ bonds ]', 'A +A 1 0.36 999']
+            # the same bond as 'bond+' again: it replaces the earlier one; an explicit version 0 is the same as no version
+            out += ['[ bonds ]', 'A +A 1 0.36 999' + rnd.choice(['', '', ' {"version": 0}'])]
         elif kind == 'explicit-order':
             out += ['[ bonds ]', 'A {"order": 0} A {"order": %d} 1 0.6 300 {"version": 3}' % rnd.choice([2, -2]),
                     '[ edges ]', 'A {"order": 0} A {"order": %d}' % 2]
